@@ -167,6 +167,18 @@ type Listener struct {
 	ch     chan *Conn
 	closed bool
 	done   chan struct{}
+	// raw, if set, makes this a listener owned by harness code on the simulator
+	// goroutine: it is told about each new connection and returns the sink that
+	// receives the dialer's frames (nil frame = EOF).
+	raw func(rc *RawConn) func(frame []byte)
+}
+
+// ListenRaw registers a listener whose acceptor side is driven by harness code
+// (a stub server): no goroutines, no codec.
+func (n *Net) ListenRaw(address string, onConn func(rc *RawConn) func(frame []byte)) {
+	mu.Lock()
+	defer mu.Unlock()
+	n.listeners[address] = &Listener{net: n, addr: address, ch: make(chan *Conn, 1), done: make(chan struct{}), raw: onConn}
 }
 
 // Listen replaces net.Listen in the instrumented copy.
@@ -228,6 +240,7 @@ func (n *Net) dial(address string, sink func([]byte)) (*Link, error) {
 	mu.Lock()
 	var err error
 	var link *Link
+	var rawAcc func(rc *RawConn) func(frame []byte)
 	l, ok := n.listeners[address]
 	switch {
 	case n.refuse[address] > 0:
@@ -251,10 +264,22 @@ func (n *Net) dial(address string, sink func([]byte)) (*Link, error) {
 		link.ends[1] = &Conn{link: link, side: 1}
 		n.links[link.Name] = link
 		n.order = append(n.order, link.Name)
-		l.ch <- link.ends[1]
+		if l.raw != nil {
+			rawAcc = l.raw
+		} else {
+			l.ch <- link.ends[1]
+		}
 	}
 	od := n.OnDial
 	mu.Unlock()
+	if rawAcc != nil {
+		rc := &RawConn{Link: link, acceptor: true}
+		link.Raw = rc
+		snk := rawAcc(rc)
+		mu.Lock()
+		link.pipes[0].sink = snk
+		mu.Unlock()
+	}
 	if od != nil {
 		od(address, link, err)
 	}
@@ -265,7 +290,8 @@ func (n *Net) dial(address string, sink func([]byte)) (*Link, error) {
 // simulator goroutine: no goroutines, no codec. Frames from the acceptor are
 // handed to the sink when the scheduler delivers them (nil means EOF).
 type RawConn struct {
-	Link *Link
+	Link     *Link
+	acceptor bool
 }
 
 // DialRaw opens a connection for a raw peer.
@@ -280,12 +306,19 @@ func (n *Net) DialRaw(address string, sink func(frame []byte)) (*RawConn, error)
 }
 
 // Send queues one frame towards the acceptor.
+func (r *RawConn) end() *Conn {
+	if r.acceptor {
+		return r.Link.ends[1]
+	}
+	return r.Link.ends[0]
+}
+
 func (r *RawConn) Send(frame []byte) error {
-	_, err := r.Link.ends[0].Write(frame)
+	_, err := r.end().Write(frame)
 	return err
 }
 
-func (r *RawConn) Close() { _ = r.Link.ends[0].Close() }
+func (r *RawConn) Close() { _ = r.end().Close() }
 
 // ---- scheduler side -----------------------------------------------------------
 
